@@ -39,6 +39,15 @@ func C12() int {
 		for j, x := range cs {
 			logs[i].items = append(logs[i].items, mkItem(x, i+j))
 		}
+		if i%8 == 4 {
+			// lines of the COMMAND / QUERY / WRITE components that carry attr.ns but NO command document
+			// (write conflicts, cursor and index-build reports): "attr.ns on every line that has one"
+			o := g.OtherLine()
+			o.Set("c", jt.StrN([]string{"WRITE", "COMMAND", "QUERY"}[i/8%3]))
+			o.Set("msg", jt.StrN([]string{"Caught WriteConflictException", "Slow query", "Cursor timed out", "Index build: starting"}[i/8%4]))
+			o.Get("attr").Set("ns", jt.StrN(cs[0].DB+"."+cs[0].Coll).With(&jt.Tag{Role: jt.NsFull}))
+			logs[i].items = append(logs[i].items, rawItem("operation-line-without-command", o, i))
+		}
 		if i%8 == 0 { // other-component lines with attr.ns
 			o := g.OtherLine()
 			o.Get("attr").Set("ns", jt.StrN(cs[0].DB+"."+cs[0].Coll).With(&jt.Tag{Role: jt.NsFull}))
